@@ -10,6 +10,7 @@ import (
 	"testing"
 
 	"github.com/elnosh/gonuts/cashu"
+	"github.com/elnosh/gonuts/wallet"
 	"pgregory.net/rapid"
 
 	"verif/harness/lnmodel"
@@ -48,6 +49,10 @@ type spec struct {
 	// RestartFee >= 0: after the sending wallet was loaded the mint is restarted (no rotation) with this input fee in
 	// its configuration - which only concerns keysets created from then on
 	RestartFee int
+	// Restored: the sending wallet's directory was created by wallet.Restore (from a mnemonic that owns nothing at
+	// the mint) at the point where the wallet would otherwise have been created; the send happens in the first
+	// session on that directory. A wallet restored from its seed is a wallet like any other.
+	Restored bool
 }
 
 func propSend(t *rapid.T) {
@@ -62,6 +67,7 @@ func propSend(t *rapid.T) {
 	if rapid.IntRange(0, 4).Draw(t, "mint_restart") == 0 {
 		sp.RestartFee = int(rapid.SampledFrom(feeChoices).Draw(t, "restart_fee"))
 	}
+	sp.Restored = rapid.IntRange(0, 3).Draw(t, "sender_restored") == 0
 	total := 0
 	var balance, inactive uint64
 	for k := 0; k < nks; k++ {
@@ -102,6 +108,28 @@ func propSend(t *rapid.T) {
 	sendCase(t, sp)
 }
 
+// newSender creates the sending wallet: an ordinary first start, or a directory made by wallet.Restore from the
+// mnemonic of a throw-away wallet and then loaded.
+func newSender(e *wenv.Env, mintURL string, restored bool) (*wenv.WalletH, error) {
+	if !restored {
+		return e.NewWallet("sender", mintURL)
+	}
+	src, err := e.NewWallet("seedsource", mintURL)
+	if err != nil {
+		return nil, err
+	}
+	dir, err := os.MkdirTemp(world.ScratchBase(), "wallet")
+	if err != nil {
+		return nil, err
+	}
+	os.Remove(dir)
+	e.Cur = "sender"
+	if _, err := wallet.Restore(dir, src.Mnemonic, []string{mintURL}); err != nil {
+		return nil, fmt.Errorf("restore: %w", err)
+	}
+	return e.Adopt("sender", dir, mintURL)
+}
+
 func sendCase(t world.T, sp spec) {
 	nks, fees := len(sp.Fees), sp.Fees
 	e := wenv.New(t, sp.CaseSeed, []uint{fees[0]}, []lnmodel.FeeMode{lnmodel.FeeZero})
@@ -116,7 +144,7 @@ func sendCase(t world.T, sp spec) {
 	for k := 0; k < nks; k++ {
 		if sp.LateRotation && k == nks-1 {
 			var err error
-			if sender, err = e.NewWallet("sender", mintURL); err != nil {
+			if sender, err = newSender(e, mintURL, sp.Restored); err != nil {
 				t.Fatalf("LoadWallet: %v", err)
 			}
 		}
@@ -153,9 +181,12 @@ func sendCase(t world.T, sp spec) {
 	}
 	if sender == nil {
 		var err error
-		if sender, err = e.NewWallet("sender", mintURL); err != nil {
+		if sender, err = newSender(e, mintURL, sp.Restored); err != nil {
 			t.Fatalf("LoadWallet: %v", err)
 		}
+	}
+	if sp.Restored {
+		rec.Class("sender_directory_created_by_restore")
 	}
 	if err := sender.Inner().SaveProofs(contents); err != nil {
 		t.Fatalf("SaveProofs: %v", err)
@@ -208,6 +239,9 @@ func sendCase(t world.T, sp spec) {
 		maxFee = max(maxFee, uint64(f))
 	}
 	cls := fmt.Sprintf("fees=%v|swap=%v|max_ppk=%d|keysets=%d", includeFees, swapped, maxFee, nks)
+	if sp.Restored {
+		desc += ", sender restored from seed"
+	}
 	if sp.LateRotation {
 		rec.Class(fmt.Sprintf("send_discovers_rotation|fees=%v|swap=%v", includeFees, swapped))
 	}
